@@ -118,13 +118,19 @@ def grammar_stream(rng, quick):
         for c in RESERVE_CMDS:
             for a in ARG_SHAPES:
                 out.append("%s.%s%s%s" % (h, c, a, rng.choice(TAILS)))
+    # a time base of 1, 2, 3 (asked for; whatever the implementation makes of it) in front of every command with time-valued arguments
+    tiny = []
+    for tb in [1, 2, 3]:
+        for n in command_names():
+            for a in (["(120,60,!1)", "(!1)"] if quick else ["(120,60,!1)", "(60,!1)", "(0,127,!1)", "(1)", "(!1)"]):
+                tiny.append("TimeBase(%d) %s%s c d" % (tb, n, a))
     if quick:
         # the reservation grid in full (it is where "the next note" matters), the command grid sampled
         res = [s for s in out if re.match(r"[A-Za-z0-9]+\.", s)]
         cmd = [s for s in out if not re.match(r"[A-Za-z0-9]+\.", s)]
         rng.shuffle(cmd)
         out = res + cmd[:2500]
-    return out
+    return tiny + out
 
 
 CHAR_CONTEXTS = ["%s", "Rhythm{%s}", "Rhythm{b4 %s s4}", "$%s{n36,}", "$%s{n36,} Rhythm{%s}", "c%s", "l%s", "@%s", "#%s={c} #%s", "~{%s}={c} %s",
